@@ -53,7 +53,8 @@ static int worker_cb(void *user, void *work)
 		viol("item-processed-twice");
 	vs_yield();
 	c->busy = 0;
-	return (it->id == fail_item) ? -7 : 0;
+	/* worker callbacks may report any non-zero status */
+	return (it->id == fail_item) ? ((PAT + N) % 2 ? 5 : -7) : 0;
 }
 
 static int expect_next;
